@@ -383,6 +383,23 @@ theorem metrics_eq_spec_of_wires {c : Dag} {P : Reg → List NodeId} (g : Good c
 theorem canonical_schedule_is_schedule {c : Dag} {P : Reg → List NodeId} (g : Good c P) : Sched c P (compSched c) :=
   compSched_sched g
 
+/-! ### the rewrites act on the specification's operation list -/
+
+/-- **`unwrap_nodes` = flatMap-unwrap on the operation list**: on any circuit satisfying DagInv with plain operations and any
+    schedule `L`, the call succeeds and all metrics of the result equal their specifications on the unwrapped operation list of `L` -/
+theorem metrics_after_unwrap_nodes {c : Dag} {P : Reg → List NodeId} {L : List (NodeId × Op)} (g : Good c P) (hpl : AllPlain c)
+    (hS : Sched c P L) : c.unwrapNodes.2 = none ∧ MetricsMeetSpec c.unwrapNodes.1 ((L.map (·.2)).flatMap Op.unwrap) := by
+  obtain ⟨he, P', L', g', hS', hpl', hL'⟩ := unwrapNodes_sched_gen g hpl hS
+  exact ⟨he, hL' ▸ metrics_eq_spec_on_any_schedule g' hpl' hS'⟩
+
+/-- **`remove_identity` = filter on the operation list** -/
+theorem metrics_after_remove_identity {c : Dag} {P : Reg → List NodeId} {L : List (NodeId × Op)} (g : Good c P) (hpl : AllPlain c)
+    (hS : Sched c P L) :
+    c.removeIdentity.2 = none ∧
+      MetricsMeetSpec c.removeIdentity.1 ((L.map (·.2)).filter (fun o => !decide (o.kind = .identity))) := by
+  obtain ⟨he, P', L', g', hS', hpl', hL'⟩ := removeIdentity_sched_gen g hpl hS
+  exact ⟨he, hL' ▸ metrics_eq_spec_on_any_schedule g' hpl' hS'⟩
+
 /-! ### the metrics are functions of the per-register operation sequences -/
 
 /-- a circuit satisfying DagInv has a node iff it has a register -/
